@@ -473,14 +473,26 @@ def o8(ctx, rep):
     # self.sync_seqn stores only after Meta::write succeeded
     rem = R.ok_removed()
     n = 1
-    for b in range(R.n):
-        if R.is_cleanup(b):
-            continue
-        for s in R.stmts(b):
-            if s["k"] == "assign" and fields_of(s["pl"]) == ("sync_seqn",) and s["pl"].get("o", [""])[-1] == "nomt::store::sync::Sync":
-                n += 1
-                ok = b != B and R.dominates(B, b, removed=rem)
-                rep.check(ok, "O8", fn, "seqn-advance-after-meta", "self.sync_seqn is advanced at %s, not after the meta page was written" % s.get("ln"), site=s.get("ln"), detail="store to self.sync_seqn at %s dominated by Meta::write's success edge" % s.get("ln"))
+    region = owned_region(ctx.facts, R.id)
+    for body in [R] + [ctx.facts.bodies[x] for x in sorted(region) if ctx.facts.bodies[x].kind != "Closure"]:
+        for b in range(body.n):
+            if body.is_cleanup(b):
+                continue
+            for s in body.stmts(b):
+                if s["k"] == "assign" and fields_of(s["pl"]) == ("sync_seqn",) and s["pl"].get("o", [""])[-1] == "nomt::store::sync::Sync":
+                    n += 1
+                    if body.id == R.id:
+                        ok = b != B and R.dominates(B, b, removed=rem)
+                    else:
+                        # a private phase of Sync::sync (`write_meta`): behind Meta::write inside the phase, or the whole
+                        # phase behind it in Sync::sync
+                        inner = [x for x, t_ in body.calls() if t_.get("callee") == META_WRITE]
+                        if inner:
+                            ok = any(x != b and body.dominates(x, b, removed=body.ok_removed()) for x in inner)
+                        else:
+                            ebs = entry_blocks(ctx.facts, R, body.id, region)
+                            ok = bool(ebs) and all(eb != B and R.dominates(B, eb, removed=rem) for eb in ebs)
+                    rep.check(ok, "O8", fn, "seqn-advance-after-meta", "self.sync_seqn is advanced at %s, not after the meta page was written" % s.get("ln"), site=s.get("ln"), detail="store to self.sync_seqn at %s dominated by Meta::write's success edge" % s.get("ln"))
     rep.floor("O8 sync_seqn stores", n - 1, 1)
     return n
 
